@@ -469,10 +469,13 @@ static void run_deviations(void) {
         /* dense container is 8197 bytes: truncations at a few lengths and substitutions in the header only */
         static uint8_t big[9000];
         memcpy(big, encbuf, len);
-        static const size_t cuts[] = {0, 1, 4, 5, 6, 100, 8196};
-        for (size_t k = 0; k < sizeof cuts / sizeof *cuts; k++) {
-            snprintf(cur_desc, sizeof cur_desc, "bitmap-dense truncated to %zu of %zu", cuts[k], len);
-            probe_bitmap(big, cuts[k]);
+        /* every truncation within 24 bytes of either end, plus a few in the middle */
+        for (size_t cut = 0; cut < len; cut++) {
+            if (cut > 24 && cut + 24 < len && cut != 100 && cut != 4096 && cut != 8191) {
+                continue;
+            }
+            snprintf(cur_desc, sizeof cur_desc, "bitmap-dense truncated to %zu of %zu", cut, len);
+            probe_bitmap(big, cut);
         }
         for (size_t i = 0; i < 5; i++) {
             for (int a = 0; a < 12; a++) {
